@@ -32,9 +32,9 @@ P = {
  "C09": (True, "model_checking", "for every automaton of the population: deserialize(serialize(a) ++ tail) for several tails, equality, byte identity, independent parse of the byte image against the raw table, product exploration original vs restored, search differential",
   "Every automaton built anywhere in the population (small scope x kinds x variants, large families) and every value type incl. user-defined fixed-width ones is round-tripped with four different tails.",
   "Byte layout is parsed independently from the documented field order.", "§3 C09"),
- "C10": (True, "exploration", "bounded-exhaustive enumeration of pattern collections (empty collection, empty patterns and repeats in every position) x kinds x variants x entry points x value types against the validity predicate",
+ "C10": (True, "exploration", "bounded-exhaustive enumeration of pattern collections (empty collection, empty patterns and repeats in every position) x kinds x variants x entry points x value types against the validity predicate; valid scale collections and boundary code points as pattern characters through every entry point",
   "Every sequence of <= 4 (thorough 5) strings from {empty} + U(2,2), plus defect insertion at every position of a base collection, plus index-conversion boundaries; construction must succeed exactly on valid input, return an error kind that names a defect present, and never panic.",
-  "Documented size limits (2^24 patterns, 2^32 states) are not exercised.", "§3 C10"),
+  "Documented size limits (2^24 patterns, 2^32 states) are not exercised; the largest valid collections built are the scale collections (a 70000-byte pattern, 74284 patterns).", "§3 C10"),
  "C11": (True, "model_checking", "product exploration (bisimulation) of the automaton built with num_free_blocks = k and the one built with the default, for k in 1..=64, over all labels, on families that evict many blocks",
   "A completed product exploration shows identical search results for every haystack; state counts compared; each automaton additionally re-checked for table closure.",
   "Families are designed to span/evict many blocks (17-66 blocks); not all pattern sets.", "§3 C11"),
